@@ -95,7 +95,7 @@ Qed.
 Print Assumptions C08_arguments_in_text.
 
 (* Kept options = the merged pairs with a known key whose converter succeeds, converted by that converter;
-   every dropped pair (unknown key, or ValueError/TypeError from the converter) is named in exactly one
+   every dropped pair (unknown key, or any exception from the converter) is named in exactly one
    warning, kept ones and foreign names in none. [items] is what the tokenizer returns for the block. *)
 Theorem C08_option_validation :
   forall tokenize yaml_load sg first_line content line additional r items has_comments,
